@@ -126,8 +126,8 @@ func writeFacts(repo, out string) error {
 	copyFresh := false
 	// F8: the panic of an interrupt function is not recovered by try statements:
 	//  pollsVia: every receive from the Interrupt channel hands the function to rt.interrupt
-	//  notes:    interrupt = { halting := true; defer func(){ rt.halting = halting }(); function(); halting = false }
-	//  tryLets:  the deferred function of tryCatchEvaluate starts with `if rt.halting { return }`, before recover()
+	//  notes:    interrupt = { [nil function: return]; defer func(){ if c := recover(); c != nil { rt.halting, rt.haltValue = true, c; panic(c) } }(); function() }
+	//  tryLets:  the deferred function of tryCatchEvaluate is `if c := recover(); c != nil { if rt.halting { if samePanic(c, rt.haltValue) { panic(c) } … } … }`
 	pollsVia, pollCount, notes, tryLets := true, 0, false, false
 
 	for _, f := range files {
@@ -167,56 +167,99 @@ func writeFacts(repo, out string) error {
 				pollsVia = pollsVia && via
 				return true
 			})
-			if name == "interrupt" && fd.Recv != nil && len(fd.Body.List) == 4 && len(fd.Type.Params.List) == 1 {
+			isCallOf := func(st ast.Stmt, fn string, nargs int) bool {
+				es, ok := st.(*ast.ExprStmt)
+				if !ok {
+					return false
+				}
+				c, ok := es.X.(*ast.CallExpr)
+				if !ok || len(c.Args) != nargs {
+					return false
+				}
+				id, ok := c.Fun.(*ast.Ident)
+				return ok && id.Name == fn
+			}
+			// `if <v> := recover(); <v> != nil { body }` -> body, v
+			recoverIf := func(st ast.Stmt) ([]ast.Stmt, string) {
+				ifs, ok := st.(*ast.IfStmt)
+				if !ok || ifs.Init == nil || ifs.Else != nil {
+					return nil, ""
+				}
+				as, ok := ifs.Init.(*ast.AssignStmt)
+				if !ok || len(as.Lhs) != 1 || len(as.Rhs) != 1 {
+					return nil, ""
+				}
+				v, ok1 := as.Lhs[0].(*ast.Ident)
+				c, ok2 := as.Rhs[0].(*ast.CallExpr)
+				if !ok1 || !ok2 {
+					return nil, ""
+				}
+				if id, ok := c.Fun.(*ast.Ident); !ok || id.Name != "recover" {
+					return nil, ""
+				}
+				return ifs.Body.List, v.Name
+			}
+			if name == "interrupt" && fd.Recv != nil && len(fd.Type.Params.List) == 1 {
+				// [if function == nil { return }]; defer func(){ if caught := recover(); caught != nil {
+				//   rt.halting, rt.haltValue = true, caught; panic(caught) } }(); function()
 				param := fd.Type.Params.List[0].Names[0].Name
-				a0, ok0 := fd.Body.List[0].(*ast.AssignStmt)
-				d1, ok1 := fd.Body.List[1].(*ast.DeferStmt)
-				c2, ok2 := fd.Body.List[2].(*ast.ExprStmt)
-				a3, ok3 := fd.Body.List[3].(*ast.AssignStmt)
-				if ok0 && ok1 && ok2 && ok3 && len(a0.Lhs) == 1 && len(a3.Lhs) == 1 {
-					v, isV := a0.Lhs[0].(*ast.Ident)
-					t, isT := a0.Rhs[0].(*ast.Ident)
-					v3, isV3 := a3.Lhs[0].(*ast.Ident)
-					f3, isF3 := a3.Rhs[0].(*ast.Ident)
-					call, isCall := c2.X.(*ast.CallExpr)
-					good := isV && isT && isV3 && isF3 && isCall && t.Name == "true" && f3.Name == "false" && v.Name == v3.Name && a0.Tok.String() == ":="
-					if good {
-						fn, isFn := call.Fun.(*ast.Ident)
-						good = isFn && fn.Name == param && len(call.Args) == 0
+				list := fd.Body.List
+				if len(list) == 3 {
+					if ifs, ok := list[0].(*ast.IfStmt); ok && len(ifs.Body.List) == 1 {
+						if _, isRet := ifs.Body.List[0].(*ast.ReturnStmt); isRet {
+							list = list[1:]
+						}
 					}
-					if good {
-						// defer func() { rt.halting = <v> }()
-						fl, isFL := d1.Call.Fun.(*ast.FuncLit)
-						good = isFL && len(fl.Body.List) == 1
-						if good {
-							as, isAs := fl.Body.List[0].(*ast.AssignStmt)
-							good = isAs && len(as.Lhs) == 1 && hasSel(as.Lhs[0], "halting")
-							if good {
-								r, isR := as.Rhs[0].(*ast.Ident)
-								good = isR && r.Name == v.Name
+				}
+				if len(list) == 2 && isCallOf(list[1], param, 0) {
+					if d, ok := list[0].(*ast.DeferStmt); ok {
+						if fl, ok := d.Call.Fun.(*ast.FuncLit); ok && len(fl.Body.List) == 1 {
+							body, v := recoverIf(fl.Body.List[0])
+							if len(body) == 2 && isCallOf(body[1], "panic", 1) {
+								as, ok := body[0].(*ast.AssignStmt)
+								if ok && len(as.Lhs) == 2 && len(as.Rhs) == 2 && hasSel(as.Lhs[0], "halting") && hasSel(as.Lhs[1], "haltValue") {
+									t, ok1 := as.Rhs[0].(*ast.Ident)
+									w, ok2 := as.Rhs[1].(*ast.Ident)
+									notes = ok1 && ok2 && t.Name == "true" && w.Name == v
+								}
 							}
 						}
 					}
-					notes = good
 				}
 			}
 			if name == "tryCatchEvaluate" {
+				// defer func(){ if caught := recover(); caught != nil { if rt.halting { if samePanic(caught, rt.haltValue) { panic(caught) } … } … } }()
 				for _, st := range fd.Body.List {
 					ds, ok := st.(*ast.DeferStmt)
 					if !ok {
 						continue
 					}
 					fl, ok := ds.Call.Fun.(*ast.FuncLit)
-					if !ok || len(fl.Body.List) < 2 {
+					if !ok || len(fl.Body.List) != 1 {
 						continue
 					}
-					ifs, ok := fl.Body.List[0].(*ast.IfStmt)
-					if !ok || ifs.Init != nil || ifs.Else != nil || len(ifs.Body.List) != 1 {
+					body, v := recoverIf(fl.Body.List[0])
+					if len(body) < 2 {
 						continue
 					}
-					se, isSel := ifs.Cond.(*ast.SelectorExpr)
-					ret, isRet := ifs.Body.List[0].(*ast.ReturnStmt)
-					if isSel && se.Sel.Name == "halting" && isRet && len(ret.Results) == 0 {
+					ifs, ok := body[0].(*ast.IfStmt)
+					if !ok || ifs.Init != nil || len(ifs.Body.List) == 0 {
+						continue
+					}
+					if se, ok := ifs.Cond.(*ast.SelectorExpr); !ok || se.Sel.Name != "halting" {
+						continue
+					}
+					inner, ok := ifs.Body.List[0].(*ast.IfStmt)
+					if !ok || len(inner.Body.List) != 1 || !isCallOf(inner.Body.List[0], "panic", 1) {
+						continue
+					}
+					c, ok := inner.Cond.(*ast.CallExpr)
+					if !ok || len(c.Args) != 2 {
+						continue
+					}
+					id, ok1 := c.Fun.(*ast.Ident)
+					a0, ok2 := c.Args[0].(*ast.Ident)
+					if ok1 && ok2 && id.Name == "samePanic" && a0.Name == v && hasSel(c.Args[1], "haltValue") {
 						tryLets = true
 					}
 				}
